@@ -288,6 +288,9 @@ def native_run(scenarios, profile="dev"):
         line = line.strip()
         if line.startswith("["):
             return json.loads(line)
+    if rc != 0 and len(scenarios) == 1:
+        # the process itself died (stack overflow / abort): that IS an abort of the code under test
+        return [{"panic": True, "msg": f"replay process died (exit status {rc}): " + out[-200:]}]
     raise RuntimeError("native replay gave no output: " + out[-500:])
 
 
